@@ -384,6 +384,28 @@ pub fn run(a: &Args) {
             }
             Err(_) => (false, false),
         };
+        // the loader that makes a SharedString asset out of file contents validates the same way:
+        // it accepts exactly what from_utf8 accepts and then holds exactly these bytes
+        {
+            use assets_manager::loader::{Loader, StringLoader};
+            for (how, r) in [
+                ("borrowed", <StringLoader as Loader<SharedString>>::load(Cow::Borrowed(&b[..]), "txt")),
+                ("owned", <StringLoader as Loader<SharedString>>::load(Cow::Owned(b.clone()), "txt")),
+            ] {
+                let ok = match &r {
+                    Ok(s) => s.as_bytes() == &b[..],
+                    Err(_) => false,
+                };
+                if (r.is_ok() != ours_ok || (r.is_ok() && !ok)) && bad.len() < 5 {
+                    bad.push(format!(
+                        "StringLoader ({how} contents) for SharedString on {:02x?}: {} (from_utf8 {})",
+                        b,
+                        match &r { Ok(s) => format!("accepted, holds {:02x?}", s.as_bytes()), Err(_) => "refused".to_string() },
+                        if ours_ok { "accepts" } else { "refuses" }
+                    ));
+                }
+            }
+        }
         let coq = format!("({}, {}, {}, {}, {})", nlist(b), cbool(std_ok), upto, cbool(ours_ok), cbool(same));
         let json = format!("{{\"bytes\": {}, \"std_accepts\": {}, \"valid_up_to\": {}, \"shared_string_accepts\": {}}}", jstr(&format!("{:02x?}", b)), std_ok, upto, ours_ok);
         cases.push_nt(gu, coq, json, b.len() >= 2);
